@@ -11,6 +11,7 @@ import (
 	"os/exec"
 	"runtime/debug"
 	"strings"
+	"sync/atomic"
 	"testing"
 	"time"
 
@@ -67,6 +68,21 @@ func TestVerifC16Worker(t *testing.T) {
 		t.Skip()
 	}
 	debug.SetMaxStack(4 << 20)
+	// a worker never outlives its supervisor, and gives up on an input that keeps it busy for 15 s
+	var progress int64
+	parent := os.Getppid()
+	go func() {
+		last, since := int64(-1), time.Now()
+		for {
+			time.Sleep(250 * time.Millisecond)
+			if p := atomic.LoadInt64(&progress); p != last {
+				last, since = p, time.Now()
+			}
+			if os.Getppid() != parent || time.Since(since) > 15*time.Second {
+				os.Exit(7)
+			}
+		}
+	}()
 	fi, err := os.Open(in)
 	if err != nil {
 		t.Fatal(err)
@@ -91,6 +107,7 @@ func TestVerifC16Worker(t *testing.T) {
 		}
 		fmt.Fprintf(w, "B %d\n", i)
 		w.Flush()
+		atomic.AddInt64(&progress, 1)
 		o := parseOne(s)
 		b, _ := json.Marshal(o)
 		fmt.Fprintf(w, "E %d %s\n", i, b)
@@ -99,6 +116,9 @@ func TestVerifC16Worker(t *testing.T) {
 	w.Flush()
 	fo.Close()
 }
+
+// inputs that killed or hung a worker, over all batches of a run (enough is enough: the rest is reported as not run)
+var c16BadTotal int
 
 // runIsolated runs ParseURI on every input in worker processes and returns one outcome per input.
 func runIsolated(t *testing.T, inputs []string) []uriOut {
@@ -117,7 +137,7 @@ func runIsolated(t *testing.T, inputs []string) []uriOut {
 	f.Close()
 	nbad := 0
 	for start < len(inputs) {
-		if nbad >= 300 {
+		if nbad >= 100 || c16BadTotal >= 150 {
 			// enough evidence: the rest of the batch is reported as not run
 			for i := start; i < len(inputs); i++ {
 				res[i] = uriOut{Out: "not-run"}
@@ -151,7 +171,7 @@ func runIsolated(t *testing.T, inputs []string) []uriOut {
 				} else {
 					stale, lastSize = 0, sz
 				}
-				if stale >= 10 { // 5 s without progress
+				if stale >= 6 { // 3 s without progress on one input
 					timedOut = true
 					cmd.Process.Kill()
 					<-done
@@ -198,6 +218,7 @@ func runIsolated(t *testing.T, inputs []string) []uriOut {
 			res[culprit] = uriOut{Out: "died"}
 		}
 		nbad++
+		c16BadTotal++
 		start = culprit + 1
 	}
 	return res
@@ -273,6 +294,9 @@ func TestVerifC16(t *testing.T) {
 		ins[i] = it.s
 	}
 	for i, o := range runIsolated(t, ins) {
+		if o.Out == "not-run" {
+			continue // the bad-input budget of the run was used up before this input's turn
+		}
 		tw.emit(map[string]interface{}{"k": "uri", "scheme": items[i].scheme, "abs": items[i].abs, "in": items[i].s, "o": o})
 	}
 	// (b) native sweep over the property's 20-symbol alphabet (no per-input prediction: summarised per batch)
@@ -287,9 +311,11 @@ func TestVerifC16(t *testing.T) {
 		bad := []map[string]interface{}{}
 		var worst int64
 		worstLen := 0
-		ret := 0
+		ret, notRun := 0, 0
 		for i, o := range outs {
-			if o.Out == "ok" || o.Out == "err" {
+			if o.Out == "not-run" {
+				notRun++
+			} else if o.Out == "ok" || o.Out == "err" {
 				ret++
 			} else {
 				bad = append(bad, map[string]interface{}{"s": truncate(batch[i]), "out": o.Out, "len": len(batch[i])})
@@ -298,7 +324,7 @@ func TestVerifC16(t *testing.T) {
 				worst, worstLen = o.Ns, len(batch[i])
 			}
 		}
-		tw.emit(map[string]interface{}{"k": "batch", "kind": kind, "count": len(batch), "returned": ret, "bad": bad,
+		tw.emit(map[string]interface{}{"k": "batch", "kind": kind, "count": len(batch) - notRun, "returned": ret, "bad": bad,
 			"worst_us": worst / 1000, "worst_len": worstLen})
 		batch = batch[:0]
 	}
